@@ -75,8 +75,17 @@ void splinetable<Alloc>::fit(const ::ndsparse& data,
 		                       +std::to_string(data.ndim)+")");
 	
 	//If this table already holds data the fit replaces it: hand the old storage
-	//back first, rather than overwriting the pointers to it.
-	release();
+	//back first, rather than overwriting the pointers to it. Auxiliary keys
+	//are not the fit's business and stay with the table.
+	{
+		uint32_t kept_naux=naux;
+		char_ptr_ptr_ptr kept_aux=aux;
+		naux=0;
+		aux=NULL;
+		release();
+		naux=kept_naux;
+		aux=kept_aux;
+	}
 	
 	//From here on the table is being built. If anything fails give back what
 	//has been allocated so far and leave the table empty, not half populated.
